@@ -614,3 +614,33 @@ pub fn def(ctx: &Ctx) -> PropertyDef {
         ],
     }
 }
+
+/// Entry point for the libFuzzer target on raw QASM text: the front end must not panic (a panic
+/// aborts the target), and a circuit it accepts must survive print -> parse when it lies in the
+/// printable gate set.
+pub fn check_fuzz_text(text: &str) -> Result<(), String> {
+    let Ok(c) = Circuit::from_qasm(text) else {
+        return Ok(());
+    };
+    let Some(m) = Circ::from_quizx(&c) else {
+        return Ok(());
+    };
+    let printable: Vec<GK> = qasm_kinds().into_iter().map(|(_, k)| k).collect();
+    if m.gates.iter().any(|g| !printable.contains(&g.k)) {
+        return Ok(());
+    }
+    if m.gates.iter().any(|g| g.qs.iter().any(|&q| q >= m.n)) {
+        return Err(format!("accepted a gate on a qubit outside the {} declared qubits", m.n));
+    }
+    let printed = c.to_qasm();
+    let back = match Circuit::from_qasm(&printed) {
+        Ok(b) => b,
+        Err(e) => return Err(format!("printed form of an accepted circuit does not parse: {e}; printed: {printed}")),
+    };
+    let small = m
+        .gates
+        .iter()
+        .all(|g| !g.k.has_phase() || g.phase.1 <= 16);
+    same_circuit(&m, &back, if small { None } else { Some(1e-6) })
+        .map_err(|e| format!("print -> parse changed an accepted circuit: {e}; printed: {printed}"))
+}
